@@ -81,7 +81,7 @@ Proof.
 Qed.
 
 Theorem small_tuples_exact : forallb tuple_ok (small_tuples mesgs) = true.
-Proof. vm_cast_no_check (eq_refl true). Qed.
+Proof. vm_compute. reflexivity. Qed.
 
 (* every component of the profile of at most 16 bits, every raw value of its width: the model's float pipeline yields the exact
    rational value rounded half away from zero (modulo 2^32, which never bites for these widths) *)
